@@ -146,6 +146,8 @@ func (m *c13model) eval(n *Node, ch thunk) []string {
 		return m.eval(kids(0), func() []string { return m.eval(blk, nil) })
 	case "hwflush": // hand-written: templ.Flush given kid 0 as its block, on a writer without Flush
 		return m.eval(kids(0), nil)
+	case "hwforwardnil": // drops its own block and hands its callee "no children"
+		return m.eval(kids(0), nil)
 	case "hwtwice": // passes its context (and so its block) on, twice
 		return cat(m.eval(kids(0), ch), m.eval(kids(0), ch))
 	case "shape":
@@ -239,7 +241,7 @@ func (g *c13gen) callee(budget *int, depth int) *Node {
 		return n
 	case "hwforward":
 		return &Node{K: k, Kids: []*Node{g.callee(budget, depth+1), g.node(budget, depth+1)}}
-	case "hwnonce", "hwclear", "hwtwice":
+	case "hwnonce", "hwclear", "hwtwice", "hwforwardnil":
 		return &Node{K: k, Kids: []*Node{g.callee(budget, depth+1)}}
 	case "shape":
 		return g.shape(budget, depth)
@@ -361,6 +363,7 @@ func c13fits(specs []*Node, nOnce int) (ok bool) {
 }
 
 type c13ctx struct {
+	plain bool
 	name  string
 	specs []*Node
 	env   *Env
@@ -388,9 +391,19 @@ func c13World(rc *kernel.RunCtx) {
 	faultsLeft := t.Choose(2, "nfaults")
 	var ctxs []*c13ctx
 	for i := 0; i < nctx; i++ {
-		c := &c13ctx{name: fmt.Sprintf("ctx#%d", i)}
-		for j, nr := 0, t.Range(1, 2, "renders-in-context"); j < nr; j++ {
+		c := &c13ctx{name: fmt.Sprintf("ctx#%d", i), plain: t.Chance(1, 4, "plain-context")}
+		nr := t.Range(1, 2, "renders-in-context")
+		if c.plain {
+			nr = 1
+		}
+		for j := 0; j < nr; j++ {
 			b := t.Range(2, rc.Param("max_nodes", 40), "budget")
+			if c.plain && t.Bool("layout-pattern") {
+				// the documented way to give a layout its body from Go code:
+				// layout.Render(templ.WithChildren(ctx, body), w), on a context nothing has touched
+				c.specs = append(c.specs, &Node{K: "hwforward", Kids: []*Node{g.callee(&b, 1), g.node(&b, 1)}})
+				continue
+			}
 			c.specs = append(c.specs, &Node{K: "seq", Kids: []*Node{g.node(&b, 0)}})
 		}
 		if faultsLeft > 0 && t.Chance(1, 4, "faulty-context") {
@@ -413,6 +426,11 @@ func c13World(rc *kernel.RunCtx) {
 			defer func() { c.w.done = true }()
 			k.Park(c.name, "start", "", nil)
 			ctx := templ.InitializeContext(context.Background())
+			if c.plain {
+				// a render started from Go code on a context templ has never seen (one render: the
+				// registry of once handles then lives as long as that render)
+				ctx = context.Background()
+			}
 			for _, s := range c.specs {
 				if err := c.env.Build(s).Render(ctx, c.w.as(kn.WKind)); err != nil {
 					c.err = err
